@@ -175,7 +175,7 @@ StepCGet ==
   /\ Judge(IF E.r = "other" THEN (IF o.r = "RuntimeError" THEN "C13:component-context-lookup-on-an-unusable-context-did-not-raise" ELSE "")
            ELSE IF StateClash(IF o.r \in {"val", "gen"} THEN "val" ELSE o.r, E.r) THEN "C13:component-context-lookup-state-check"
            ELSE IF E.r = "val" THEN (IF o.r # "val" \/ E.vid # Real(vbind, o.v) THEN "C02,C04:component-context-lookup-differs-from-the-lookup-in-its-context" ELSE "")
-           ELSE IF E.r = "None" THEN (IF o.r \notin {"None", "gen"} THEN "C02:component-context-lookup-differs-from-the-lookup-in-its-context" ELSE "")
+           ELSE IF E.r = "None" THEN (IF o.r # "None" THEN "C02,C04:component-context-lookup-differs-from-the-lookup-in-its-context" ELSE "")
            ELSE "", "cget")
 \* ComponentContext.start_service_task delegates with the arguments it was given (function, name, teardown action)
 StepCSvc ==
